@@ -30,3 +30,80 @@ theorem C15_network_command_last_dropins (E : Env) (path : Str) (main : SUnit) (
   C15_network_command_last E path _ svc n k f earlier raw h hr (by rw [C15_history main dropins hnd]; exact hh) hne
 
 end Cv
+
+/-! ### the same for the single-valued table keys of the other converters -/
+namespace Cv
+open MM
+
+/-- the last assignment of a single-valued table key, wherever it was made, is the value of the key's option in the block of
+    options derived from the table -/
+theorem string_key_last_in_block (u : SUnit) (sec : Str) (rows : List (Str × Str)) (k f : Str) (earlier : List Str) (raw : Str)
+    (hr : (k, f) ∈ rows) (hh : assignments u sec k = earlier ++ [raw]) (hne : (unq raw).isEmpty = false) :
+    [f, unq raw] <:+: addString u sec rows := by
+  have hv : lookup u sec k = some (unq raw) := by
+    rw [(C15_last u sec k).2, hh]; simp
+  exact rowString_infix u sec rows k f (unq raw) hr hv hne
+
+theorem infix_mid {α} {x b : List α} (a c : List α) (h : x <:+: b) : x <:+: a ++ b ++ c :=
+  h.trans (List.infix_append a b c)
+
+/-- .image -/
+theorem C15_image_command_last (E : Env) (path : Str) (u svc : SUnit) (r k f : Str) (earlier : List Str) (raw : Str)
+    (h : fromImage E path u = .ok (svc, r))
+    (hr : (k, f) ∈ Gen.tbl_from_image_unit_string_keys)
+    (hh : assignments u (s "Image") k = earlier ++ [raw]) (hne : (unq raw).isEmpty = false) :
+    [f, unq raw] <:+: imageCmd E u := by
+  rw [(C02_image_shape E path u svc r h).2]
+  have hb := string_key_last_in_block u (s "Image") _ k f earlier raw hr hh hne
+  have := infix_mid ([E.podman] ++ moduleArgs u (s "Image") ++ lookupAllArgs u (s "Image") (s "GlobalArgs") ++ [s "image", s "pull"])
+    (addBool u (s "Image") Gen.tbl_from_image_unit_bool_keys ++ lookupAllArgs u (s "Image") (s "PodmanArgs")
+      ++ [(lookup u (s "Image") (s "Image")).getD []]) hb
+  simpa only [List.append_assoc] using this
+
+/-- .pod (the create command, ExecStartPre) -/
+theorem C15_pod_command_last (E : Env) (path : Str) (u svc : SUnit) (cts : List Str) (k f : Str) (earlier : List Str) (raw : Str)
+    (h : fromPod E path u cts = .ok svc)
+    (hr : (k, f) ∈ Gen.tbl_from_pod_unit_string_keys)
+    (hh : assignments u (s "Pod") k = earlier ++ [raw]) (hne : (unq raw).isEmpty = false) :
+    ∃ cmd, HasExec svc "ExecStartPre" cmd ∧ [f, unq raw] <:+: cmd := by
+  obtain ⟨maps, nets, vols, hx⟩ := C02_pod_shape E path u svc cts h
+  refine ⟨_, hx, ?_⟩
+  have hb := string_key_last_in_block u (s "Pod") _ k f earlier raw hr hh hne
+  have := infix_mid (baseCmd E u (s "Pod") ++ [s "pod", s "create", s "--infra-conmon-pidfile=%t/%N.pid", s "--pod-id-file=%t/%N.pod-id",
+          s "--exit-policy=stop", s "--replace"] ++ maps ++ publishPorts u (s "Pod") ++ nets)
+    (addAllStrings u (s "Pod") Gen.tbl_from_pod_unit_all_string_keys ++ vols
+      ++ [s "--infra-name", podNameOf path u ++ s "-infra", s "--name", podNameOf path u] ++ podmanArgs u (s "Pod")) hb
+  simpa only [List.append_assoc] using this
+
+theorem infix_here {α} {x b : List α} (c : List α) (h : x <:+: b) : x <:+: b ++ c :=
+  h.trans (List.prefix_append b c).isInfix
+theorem infix_skip {α} {x r : List α} (a : List α) (h : x <:+: r) : x <:+: a ++ r :=
+  h.trans (List.suffix_append a r).isInfix
+
+/-- .build -/
+theorem C15_build_command_last (E : Env) (path : Str) (u svc : SUnit) (k f : Str) (earlier : List Str) (raw : Str)
+    (h : fromBuild E path u = .ok svc)
+    (hr : (k, f) ∈ Gen.tbl_from_build_unit_string_keys)
+    (hh : assignments u (s "Build") k = earlier ++ [raw]) (hne : (unq raw).isEmpty = false) :
+    ∃ cmd, HasExec svc "ExecStart" cmd ∧ [f, unq raw] <:+: cmd := by
+  obtain ⟨nets, vols, fa, tail, hx⟩ := C02_build_shape E path u svc h
+  refine ⟨_, hx, ?_⟩
+  have hb := string_key_last_in_block u (s "Build") _ k f earlier raw hr hh hne
+  simp only [List.append_assoc]
+  repeat (first | exact infix_here _ hb | apply infix_skip)
+
+/-- .container -/
+theorem C15_container_command_last (E : Env) (path : Str) (u svc : SUnit) (link : Option (Str × Str)) (k f : Str)
+    (earlier : List Str) (raw : Str)
+    (h : fromContainer E path u = some (.ok (svc, link)))
+    (hr : (k, f) ∈ Gen.tbl_from_container_unit_string_keys)
+    (hh : assignments u (s "Container") k = earlier ++ [raw]) (hne : (unq raw).isEmpty = false) :
+    ∃ cmd, HasExec svc "ExecStart" cmd ∧ [f, unq raw] <:+: cmd := by
+  obtain ⟨m1, mounts, podArgs, image, hx⟩ := C02_container_shape E path u svc link h
+  refine ⟨_, hx, ?_⟩
+  have hb := string_key_last_in_block u (s "Container") _ k f earlier raw hr hh hne
+  unfold containerHead
+  simp only [List.append_assoc]
+  repeat (first | exact infix_here _ hb | apply infix_skip)
+
+end Cv
